@@ -134,7 +134,7 @@ pub fn check_basic(t: &str, rv: &ReqView, wire_msg: &[u8]) -> Result<Parsed, Vio
                 Some(h) if !rv.has_opt && wire_msg.len() <= h => format!("{t}:oversize:no-edns-uses-server-hint"),
                 _ => format!("{t}:oversize"),
             };
-            return Err(Violation::new(sig, format!("{}: response of {} octets, the transport allows {} (request EDNS: {}, TC={})", rv.what, wire_msg.len(), l, rv.has_opt, p.hdr.tc())));
+            return Err(Violation::new(sig, format!("{}: response of {} octets, the transport allows {} (request EDNS: {}, TC={}); response starts {}", rv.what, wire_msg.len(), l, rv.has_opt, p.hdr.tc(), format!("{} ... {}", hex(&wire_msg[..wire_msg.len().min(24)]), hex(&wire_msg[wire_msg.len().saturating_sub(40)..])))));
         }
     }
     Ok(p)
